@@ -162,6 +162,16 @@ func (c *ctx) eval(nontrivialKey string) {
 		c.nontrivial[nontrivialKey] = struct{}{}
 	}
 }
+// failures that no known-finding classifier claims
+func (c *ctx) unclassified() int {
+	n := 0
+	for _, f := range c.failures {
+		if f.Class == "" {
+			n++
+		}
+	}
+	return n
+}
 func (c *ctx) sample(s interface{}) {
 	if len(c.samples) < 12 {
 		c.samples = append(c.samples, s)
